@@ -28,11 +28,14 @@ _PLUMBING = re.compile(
     r'to_vec|to_owned|as_slice|index|index_mut|get|len|is_empty|new|with_capacity|contains|push|extend|insert)$')
 _TOKEN = re.compile(r'"(?:[^"\\]|\\.)*"|\bc\d+\.arg\d+\b|<[^<>]*? as [^<>]*?>(?:::\w+)+|[A-Za-z_]\w*(?:::[A-Za-z_]\w*)+|\b-?\d+_[iu](?:\d+|size)\b|\barg\d+\b|\bc\d+\b|\.[a-z_]\w*\b|'
                     r'\b(?:Add|Sub|Mul|Div|Rem|Shl|Shr|BitAnd|BitOr|BitXor|Not|Neg)\b|\b[A-Z][A-Z0-9_]{2,}\b')
+ABBR = {}          # digest of an abbreviated description -> its leaves (filled by engine.exits and from the reviewed table)
 _GENERIC_LABELS = {'Option::None', 'None', 'false', 'true', '()', 'Ok(())', 'const false', 'const true'}
 _REL = [(' <= ', 'le'), (' >= ', 'ge'), (' == ', 'eq'), (' != ', 'ne'), (' < ', 'lt'), (' > ', 'gt')]
 _PAIR = {'lt': 'lt/ge', 'ge': 'lt/ge', 'le': 'le/gt', 'gt': 'le/gt', 'eq': 'eq/ne', 'ne': 'eq/ne'}
 _FLIP = {'lt': 'gt', 'gt': 'lt', 'le': 'ge', 'ge': 'le', 'eq': 'eq', 'ne': 'ne'}
 _OPEN, _CLOSE = '([{', ')]}'
+_MARK = re.compile(r'…#[0-9a-f]{8,12}')
+_PAIRC = {'(': ')', '[': ']', '{': '}'}
 
 
 def _strip_next(text):
@@ -54,17 +57,60 @@ def _strip_next(text):
 
 
 def leaves(text):
+    """Leaf tokens of a description.  Parameters carry their number of occurrences (`arg4*3`): which parameter feeds an
+    expression how often is the one thing a set of names cannot tell (`length(arg4)` vs `length(arg1)` in a long formula)."""
     out = set()
-    for m in _TOKEN.finditer(_strip_next(text or '')):
+    argc = {}
+    for m in _MARK.finditer(text or ''):
+        for t in ABBR.get(m.group(0)[2:], frozenset()):
+            ma = re.fullmatch(r'(arg\d+)\*(\d+)', t)
+            if ma:
+                argc[ma.group(1)] = argc.get(ma.group(1), 0) + int(ma.group(2))
+            else:
+                out.add(t)
+    # the cut-off token in front of an abbreviation mark is not a leaf (it is in the abbreviation's own leaves)
+    text = re.sub(r'[\w:]*(?=…#)', '', text or '')
+    for m in _TOKEN.finditer(_strip_next(text)):
         t = m.group(0)
         if t.startswith('"'):
             continue                                  # message texts are not behaviour
         if re.fullmatch(r'c\d+(?:\.arg\d+)?', t):
-            continue                                  # closure nesting marker
+            continue                                  # closure nesting marker / closure parameter
         if '::' in t and _PLUMBING.match(t):
             continue
+        if re.fullmatch(r'arg\d+', t):
+            argc[t] = argc.get(t, 0) + 1
+            continue
         out.add(t)
+    for k, v in argc.items():
+        out.add('%s*%d' % (k, v))
     return frozenset(out)
+
+def rebalance(text):
+    """An abbreviated sub-description (`first 80 characters…#digest`) leaves the brackets it opened unclosed; close them right
+    after the digest so that the surrounding relation is still found at bracket depth 0."""
+    if '…#' not in (text or ''):
+        return text
+    out, stack, i = [], [], 0
+    while i < len(text):
+        m = _MARK.match(text, i)
+        if m:
+            out.append(m.group(0))
+            start = len(''.join(out)) - len(m.group(0)) - 80
+            closing = []
+            while stack and stack[-1][1] >= start:
+                closing.append(_PAIRC[stack.pop()[0]])
+            out.append(''.join(closing))
+            i = m.end()
+            continue
+        ch = text[i]
+        if ch in _OPEN:
+            stack.append((ch, len(''.join(out))))
+        elif ch in _CLOSE and stack:
+            stack.pop()
+        out.append(ch)
+        i += 1
+    return ''.join(out)
 
 
 def _groups(text):
@@ -119,7 +165,7 @@ def _top_rel(seg):
 def decisions(text):
     """All primitive decisions inside a description, at any nesting depth."""
     out = set()
-    text = text or ''
+    text = rebalance(text or '')
     for _d, s, e in _groups(text):
         for seg in _top_split(text[s:e], [', ', ' | ', ' ; ', ' & ', '] ', ' := ']):
             seg = seg.strip()
@@ -127,7 +173,7 @@ def decisions(text):
             if r:
                 a, op, b = r
                 la, lb = leaves(a), leaves(b)
-                if not la and not lb:
+                if not la and not lb and a.strip() not in ('true', 'false') and b.strip() not in ('true', 'false'):
                     continue
                 # comparisons with a literal boolean are wrappers of the inner decision; a comparison METHOD (`U256::lt(a, b)`,
                 # `Byte32::eq(a, b)`) wrapped that way is a decision between its two arguments
@@ -146,6 +192,14 @@ def decisions(text):
                                 out.add(('cmp', 'lt/ge', la, lb))
                             else:
                                 out.add(('cmp', 'lt/ge', lb, la))
+                    else:
+                        # a boolean predicate of the crate / a library (`is_parent_of(..) == true`, `if_long_fork_detected(..) == false`)
+                        hd = re.match(r'^\s*((?:<[^<>]*? as [^<>]*?>|[A-Za-z_]\w*)(?:::\w+)+)\(', inner)
+                        if hd and not _PLUMBING.match(hd.group(1)):
+                            out.add(('is', 'true/false', leaves(inner)))
+                        elif not hd and re.fullmatch(r'[\w.\[\]* ()]+', inner) and re.search(r'\.\d+$', inner):
+                            # a stored flag (a tuple / struct field read as a boolean)
+                            out.add(('is', 'flag', frozenset({re.sub(r'^.*?((?:\.\d+)+)$', r'\1', inner)}) | leaves(inner)))
                     continue
                 # one decision = a test and its negation: `x < y`, `x >= y` (same test, other branch), `y > x`, `y <= x`
                 # all become lt(x, y); `x <= y` / `x > y` / `y >= x` / `y < x` become lt(y, x); == and != become eq{x, y}
@@ -159,6 +213,15 @@ def decisions(text):
                     out.add(('cmp', 'lt/ge', lb, la))
                 continue
             m = re.search(r'^(.*) is (Some|None|Ok|Err|Break|Continue)$', seg)
+            if m and m.group(2) in ('Some', 'None') and re.match(r'^\s*\(?\s*(?:<[^<>]*? as [^<>]*?>|[A-Za-z_]\w*)(?:::\w+)*::next(?:_back)?\(', m.group(1)):
+                # the test that ends (or continues) a loop over an iterator: only used for "an exit inside the loop" (bypassed)
+                lv = set()
+                for mm in _TOKEN.finditer(m.group(1)):
+                    t = mm.group(0)
+                    if not t.startswith('"') and not re.fullmatch(r'c\d+(?:\.arg\d+)?', t) and not ('::' in t and _PLUMBING.match(t)):
+                        lv.add(t)
+                out.add(('loop', frozenset(lv)))
+                continue
             if m:
                 head = re.match(r'\s*\(?\s*((?:<[^<>]*? as [^<>]*?>|[A-Za-z_]\w*)(?:::\w+)*)\(', m.group(1))
                 if head and not _PLUMBING.match(head.group(1)) and '::' in head.group(1):
@@ -197,7 +260,7 @@ def facts(exits):
     return F
 
 
-_ARG = re.compile(r'arg\d+$')
+_ARG = re.compile(r'arg\d+(?:\*\d+)?$')
 _OPS = re.compile(r'^(?:Add|Sub|Mul|Div|Rem|Shl|Shr|BitAnd|BitOr|BitXor|Not|Neg|-?\d+_[iu](?:\d+|size)|[A-Z][A-Z0-9_]{2,}|Ord::(?:min|max)|'
                   r'\w+::(?:saturating|checked|wrapping|overflowing)_\w+|\w+::(?:pow|abs_diff|leading_zeros|trailing_zeros))$')
 
@@ -215,6 +278,9 @@ def _sim(a, b):
     aa, ao, an = _classes(a)
     ba, bo, bn = _classes(b)
     if ao != bo:
+        return False
+    # which field of a value is compared is part of the operand, not context
+    if {x for x in an if x.startswith('.')} != {x for x in bn if x.startswith('.')}:
         return False
     if not (an <= bn or bn <= an) or (an and bn and not (an & bn)):
         return False
@@ -239,6 +305,8 @@ def _covered(f, actual):
         return False
     if f[0] == 'is':
         return any(g[0] == 'is' and g[1] == f[1] and _sim(f[2], g[2]) for g in actual)
+    if f[0] == 'loop':
+        return any(g[0] == 'loop' and _sim(f[1], g[1]) for g in actual)
     if f[0] == 'result':
         # the same value may now be produced with extra context, or be performed as a call of its own (closure -> loop)
         for g in actual:
@@ -258,9 +326,24 @@ def _covered(f, actual):
     return False
 
 
+def _effect_seqs(exits):
+    out = {}
+    for e in exits:
+        ef = _effect(e.get('label', ''))
+        if ef and ef[0] == 'effect':
+            out.setdefault((ef[1], ef[2]), set()).add(value_tokens(e.get('label', ''), strip=False))
+    return out
+
+
 def lost(reviewed_exits, actual_exits):
     fr, fa = facts(reviewed_exits), facts(actual_exits)
-    return sorted((f for f in fr if not _covered(f, fa)), key=repr), len(fr), len(fa)
+    out = [f for f in fr if f[0] != 'loop' and not _covered(f, fa)]
+    # the same call with the same leaves but the arguments in another order / place (swapped indices, swapped key parts)
+    sr, sa = _effect_seqs(reviewed_exits), _effect_seqs(actual_exits)
+    for key, seqs in sr.items():
+        if key in sa and not (seqs & sa[key]) and all(len(x) == len(y) for x in seqs for y in sa[key]):
+            out.append(('effect', key[0] + ' (same operands, different order)', key[1]))
+    return sorted(out, key=repr), len(fr), len(fa)
 
 
 def render(f):
@@ -273,6 +356,8 @@ def render(f):
         return 'result built from %s' % s(f[1])
     if f[0] == 'effect':
         return 'call %s with arguments from %s' % (f[1], s(f[2]))
+    if f[0] == 'loop':
+        return 'end of the loop over %s' % s(f[1])
     return 'write involving %s' % s(f[1])
 
 
@@ -290,6 +375,11 @@ def _group(e):
     if e.get('cls') == 'sink':
         m = re.match(r'^(?:in closure: )?call ([^(]+)\(', e.get('label', ''))
         return 'effect ' + m.group(1).strip() if m else None
+    m = re.match(r'^(?:in closure: )?write (.*?) :=', e.get('label', ''))
+    if m:
+        return 'write ' + re.sub(r'c\d+\.', '', m.group(1).strip())
+    if e.get('cls') == 'exact' and not _effect(e.get('label', '')) and not e.get('label', '').startswith('in closure:'):
+        return 'return'
     return None
 
 
@@ -305,27 +395,38 @@ def bypassed(reviewed_exits, actual_exits):
         d = path_decisions(e)
         must[g] = d if g not in must else {f for f in must[g] if _covered(f, d)}
     out = []
+    everywhere = set()
+    for a in actual_exits:
+        everywhere |= path_decisions(a)
     for a in actual_exits:
         g = _group(a)
         if g is None or not must.get(g):
             continue
         d = path_decisions(a)
         for f in sorted(must[g], key=repr):
+            if g == 'return' and f[0] != 'loop':
+                continue                       # plain returns are held to the loops they must finish, nothing else
+            if f[0] == 'loop' and not _covered(f, everywhere):
+                continue                       # the loop itself was rewritten (adaptor): nothing to bypass
             if not _covered(f, d):
                 out.append((g, f, a.get('label', '')))
     return out
 
 
-def value_tokens(label):
+def value_tokens(label, strip=True):
     """Ordered non-plumbing tokens of a returned-value description (alternatives `{A | B}` keep their place): two versions
     that compute the result from the same things in the same way agree, whatever the conditions around them look like."""
     out = []
-    text = _strip_next(re.sub(r'^in closure: ', '', label or ''))
+    text = re.sub(r'^in closure: ', '', label or '')
+    if strip:
+        text = _strip_next(text)
+    else:
+        out.extend(re.findall(r'\.\d+\b', text))          # tuple positions (enumerate counter vs element)
     # an abbreviated sub-description stands for its full text: its digest is part of the value
     out.extend(sorted(re.findall(r'…#[0-9a-f]{8,12}', text)))
     for m in _TOKEN.finditer(text):
         t = m.group(0)
-        if t.startswith('"') or re.fullmatch(r'c\d+(?:\.arg\d+)?', t):
+        if t.startswith('"') or (strip and re.fullmatch(r'c\d+(?:\.arg\d+)?', t)):
             continue
         if '::' in t and _PLUMBING.match(t):
             continue
@@ -348,4 +449,44 @@ def new_values(reviewed_exits, actual_exits):
         if any(sorted(vt) == sorted(k) for k in known):
             continue
         out.append(a.get('label', ''))
+    return out
+
+
+def _result_leaves(e):
+    core = re.sub(r'^in closure: ', '', e.get('label', '')).strip()
+    return leaves(core) if core not in _GENERIC_LABELS else frozenset()
+
+
+def untriggered(reviewed_exits, actual_exits):
+    """Reviewed rejections whose triggering decision no longer triggers a rejection with that result: the decision may still be
+    made elsewhere in the function (an inlined helper makes the same test), but THIS rejection now hangs on another test.
+    [(label, decision)]"""
+    rej = []
+    for a in actual_exits:
+        if a.get('cls') == 'reject':
+            d = set()
+            for t in a.get('trigger', []):
+                d |= decisions(t)
+            rej.append((_result_leaves(a), d))
+    out = []
+    for r in reviewed_exits:
+        if r.get('cls') != 'reject':
+            continue
+        tr = set()
+        for t in r.get('trigger', []):
+            tr |= {f for f in decisions(t) if f[0] != 'loop'}
+        if not tr:
+            continue
+        rl = _result_leaves(r)
+        ok = False
+        for al, ad in rej:
+            if (rl == al or (rl and al and _subsim(rl, al))) and all(_covered(f, ad) for f in tr):
+                ok = True
+                break
+        if not ok:
+            # the same test may have been split / merged with a neighbour: accept if every trigger decision triggers SOME
+            # rejection with this result
+            if all(any((rl == al or (rl and al and _subsim(rl, al))) and _covered(f, ad) for al, ad in rej) for f in tr):
+                continue
+            out.append((r.get('label', ''), sorted(tr, key=repr)[0]))
     return out
